@@ -29,7 +29,7 @@
 From Coq Require Import List Bool String Ascii Arith NArith.
 From Cheetah Require Import Ops.Json.
 Import ListNotations.
-Open Scope N_scope.
+Local Open Scope N_scope.
 
 (* a string given by its bytes (how the harness writes names: no quoting issues for control characters, quotes,
    non-ASCII) *)
